@@ -386,6 +386,8 @@ def replay_jq(spec):
     import billiard.synchronize as bs
     from harness import hbase
     from harness.c17 import Gate, GSem, GLock, Blocked
+    if spec.get('scenario') == 'feeder':
+        return replay_feeder(spec)
     gate = Gate(spec['schedule'])
     sems = {n: GSem(gate, n, v) for n, v in (('Q', 1), ('B', 0), ('PIPE', 0), ('U', 0), ('S', 0), ('W', 0), ('X', 0))}
     lockN, lockL, lockR = GLock(gate), GLock(gate), GLock(gate)
@@ -464,5 +466,213 @@ def replay_jq(spec):
         if ended != native_ended:
             hbase.trace('NOT REPRODUCED: thread %d ended=%s in the model, result %r natively' % (i, ended, results.get(i)))
             return True
+    hbase.REPLAY['tag'] = 'C16:' + str(spec.get('property'))
+    return False
+
+
+# ---------------------------------------------------------------------------
+# (d) E2: two threads of one process racing on the queue's first put: exactly one feeder thread is started and neither
+#     item is dropped (the start of the feeder and the append are one critical section of Queue.put)
+
+def _path_or_none(n):
+    from vlib import py2ts
+    try:
+        return py2ts.attr_path(n)
+    except py2ts.Unsupported:
+        return ''
+
+
+def _sliced_start_thread():
+    """Queue._start_thread reduced to its effects on the objects of the scenario, regenerated from the current source:
+    statements on self._buffer are kept, the assignment to self._thread becomes `self._thread = 1`; any other statement must not
+    mention the scenario's objects (it is thread set-up, logging and finalizer registration) and is dropped."""
+    import ast
+    from vlib import py2ts
+    qm, _ = py2ts.load_class_methods('billiard/queues.py', 'Queue')
+    fn = qm['_start_thread']
+    keep = []
+    assigned = 0
+    for st in fn.body:
+        if isinstance(st, ast.Assign) and len(st.targets) == 1 and isinstance(st.targets[0], ast.Attribute) \
+                and py2ts.attr_path(st.targets[0]) == 'self._thread':
+            keep.append(ast.Assign(targets=st.targets, value=ast.Constant(value=1), lineno=st.lineno))
+            assigned += 1
+        elif isinstance(st, ast.Expr) and isinstance(st.value, ast.Call) and py2ts.attr_path(st.value.func).startswith('self._buffer.'):
+            keep.append(st)
+        elif any(isinstance(n, ast.Call) and isinstance(n.func, ast.Attribute) and _path_or_none(n.func).startswith(q + '.')
+                 for n in ast.walk(st) for q in ('self._sem', 'self._notempty', 'self._buffer')) \
+                or any(isinstance(n, ast.Attribute) and isinstance(n.ctx, ast.Store) and _path_or_none(n) in ('self._thread', 'self._sem', 'self._notempty', 'self._buffer')
+                       for n in ast.walk(st)):
+            # (handing the objects on as arguments - to the feeder thread, to a finalizer - is not an operation on them)
+            raise py2ts.Unsupported('Queue._start_thread: statement at line %d touches the scenario objects in a way the slice does not know' % st.lineno)
+    if assigned != 1:
+        raise py2ts.Unsupported('Queue._start_thread assigns self._thread %d times' % assigned)
+    new = ast.FunctionDef(name='_start_thread', args=fn.args, body=keep, decorator_list=[], lineno=fn.lineno)
+    return ast.fix_missing_locations(new)
+
+
+def feeder_system():
+    from vlib import py2ts
+    from vlib.py2ts import Asm, Obj
+    from vlib.bmc import BVV, System
+    qm, _ = py2ts.load_class_methods('billiard/queues.py', 'Queue')
+    env = {
+        'self._closed': Obj('const', 'closed', value=0),
+        'self._thread': Obj('shared', 'T'),
+        'self._sem': Obj('sem', 'Q'),
+        'self._notempty': Obj('pycond', 'NE', lock='N'),
+        'self._buffer': Obj('buffer', 'B'),
+    }
+    methods = {('self', '_start_thread'): (_sliced_start_thread(), env, 'st.')}
+    threads = []
+    for i in range(2):
+        a = Asm()
+        c = py2ts.Compiler(a, env, methods, prefix='p%d.' % i, consts={'block': True, 'timeout': None, 'obj': 0})
+        rv = a.tmp('result')
+        end = a.label('callend')
+        c.ret_stack.append((rv, end))
+        a.emit('set', rv, ('const', 0))
+        c.block(qm['put'].body)
+        a.place(end)
+        a.emit('ret', ('loc', rv))
+        prog = a.link()
+        for k, ins in enumerate(prog):
+            if ins[0] == 'sh_write' and ins[1] == 'T':
+                prog[k] = tuple(ins) + ({'starts': (lambda v: v['gh']['starts'] + BVV(1))},)
+        threads.append(prog)
+    return System(threads, sems={'Q': 2, 'B': 0}, locks={'N': 0}, shared={'T': 0}, ghosts={'starts': 0})
+
+
+def ob_q_feeder(tier):
+    import z3
+    from vlib import bmc
+    from vlib.bmc import BVV
+    sysm = feeder_system()
+    K = sum(sum(1 for ins in p if ins[0] in bmc.VISIBLE) for p in sysm.threads) + 2
+
+    def one_feeder(states):
+        return z3.Or(*[z3.UGT(st['gh']['starts'], BVV(1)) for st in states])
+
+    def nothing_dropped(states):
+        fin = states[-1]
+        return z3.And(sysm.ended(fin, 0), sysm.ended(fin, 1), fin['sem']['B'] != BVV(2))
+
+    def no_error(states):
+        return z3.Or(*[st['err'] for st in states])
+
+    def finish(states):
+        fin = states[-1]
+        return z3.Not(z3.And(sysm.ended(fin, 0), sysm.ended(fin, 1)))
+    props = {'Q7-one-feeder-thread-per-queue': one_feeder, 'Q8-no-item-dropped-by-a-second-start': nothing_dropped,
+             'Q5-no-assertion-of-the-real-code-fails': no_error, 'Q3-everybody-finishes': finish}
+    detail = []
+    base = {'scenario': 'feeder', 'lengths': [len(p) for p in sysm.threads]}
+    for name, bad in props.items():
+        r = bmc.check_property(sysm, K, bad, (), 300)
+        detail.append({'property': name, 'status': r['status'], 'K': K, 'unwinding': r.get('unwinding'), 'why': r.get('why')})
+        if r['status'] == 'violated':
+            return {'status': 'refuted', 'detail': detail, 'cex': {'args': [dict(base, property=name, schedule=r['schedule'], final=r['final'])], 'kwargs': {}},
+                    'solver_queries': bmc.STATS['queries'], 'solver_time_s': round(bmc.STATS['time'], 2)}
+        if r['status'] != 'holds':
+            return {'status': 'unknown', 'detail': detail, 'messages': [str(r.get('why') or r.get('result'))],
+                    'solver_queries': bmc.STATS['queries'], 'solver_time_s': round(bmc.STATS['time'], 2)}
+
+    def witness(states):
+        fin = states[-1]
+        return z3.And(sysm.ended(fin, 0), sysm.ended(fin, 1), fin['gh']['starts'] == BVV(1), fin['sem']['B'] == BVV(2))
+    w = bmc.check_property(sysm, K, witness, (), 300)
+    ok = w['status'] == 'violated'
+    detail.append({'property': 'reachability-witness', 'status': 'sat' if ok else w['status']})
+    validated = 0
+    if ok:
+        if replay_feeder(dict(base, property='conformance-witness', schedule=w['schedule'], final=w['final'])) is not False:
+            return {'status': 'error', 'detail': detail, 'messages': ['model and implementation diverge on a witness run of the first-put scenario']}
+        validated = 1
+        detail.append({'property': 'witness-replayed-on-the-real-classes', 'status': 'conforms'})
+    return {'status': 'confirmed' if ok else 'unknown', 'detail': detail, 'nontrivial_witness': ok, 'traces_validated': validated,
+            'solver_queries': bmc.STATS['queries'], 'solver_time_s': round(bmc.STATS['time'], 2),
+            'states': bmc.STATS['states'], 'transitions': bmc.STATS['transitions'],
+            'samples': [{'scenario': 'Queue: two threads racing on the first put', 'K': K}]}
+
+
+def replay_feeder(spec):
+    """native replay: the real Queue.put in two real threads over gated stand-ins; reads and writes of _thread are gated steps"""
+    import threading
+    from harness import hbase
+    from harness.c17 import Gate, GSem, GLock, Blocked
+    gate = Gate(spec['schedule'])
+    sems = {'Q': GSem(gate, 'Q', 2), 'B': GSem(gate, 'B', 0)}
+    lockN = GLock(gate)
+    state = {'thread': None, 'starts': 0}
+
+    class Buffer:
+        def append(self, obj):
+            sems['B'].release()
+
+        def clear(self):
+            def fn(step):
+                sems['B'].value = 0
+            gate.op(fn)
+
+    class NotEmpty:
+        def __enter__(self):
+            return lockN.acquire()
+
+        def __exit__(self, *a):
+            lockN.release()
+
+        def notify(self):
+            pass
+
+    class GQ(bq.Queue):
+        def _get(self):
+            return gate.op(lambda step: state['thread'])
+
+        def _set(self, v):
+            def fn(step):
+                state['thread'] = v
+                state['starts'] += 1
+            gate.op(fn)
+        _thread = property(_get, _set)
+
+        def _start_thread(self):
+            # the same slice as in the model: the buffer is cleared, the thread attribute assigned
+            self._buffer.clear()
+            self._thread = object()
+    q = GQ.__new__(GQ)
+    q._maxsize = 2
+    q._sem = sems['Q']
+    q._closed = False
+    q._notempty = NotEmpty()
+    q._buffer = Buffer()
+    results = {}
+
+    def run(i):
+        gate.tids[threading.get_ident()] = i
+        try:
+            results[i] = q.put(i) or 0
+        except Blocked:
+            results[i] = 'blocked'
+        except AssertionError as e:
+            results[i] = 'assert'
+    threads = [threading.Thread(target=run, args=(i,), daemon=True) for i in range(2)]
+    for t in threads:
+        t.start()
+    for t in threads:
+        t.join(30)
+    hbase.trace('native results', results, 'starts', state['starts'], 'buffer', sems['B'].value, 'diverged', gate.diverged)
+    if gate.diverged:
+        hbase.trace('NOT REPRODUCED: model and implementation diverge:', gate.diverged)
+        return True
+    fin = spec['final']
+    for i, (pc, ln) in enumerate(zip(fin['pcs'], spec['lengths'])):
+        if (pc == ln - 1) != (results.get(i) not in ('blocked', 'assert', None)):
+            hbase.trace('NOT REPRODUCED: thread %d' % i)
+            return True
+    if spec.get('property') == 'conformance-witness':
+        return False if (state['starts'] == 1 and sems['B'].value == 2) else True
+    if state['starts'] <= 1 and sems['B'].value == 2:
+        hbase.trace('NOT REPRODUCED: natively one feeder start and both items buffered')
+        return True
     hbase.REPLAY['tag'] = 'C16:' + str(spec.get('property'))
     return False
